@@ -38,7 +38,7 @@ pub const POOL_SIZES: [usize; 6] = [1, 2, 3, 4, 16, 64];
 
 // ------------------------------------------------------------------------------ C07
 
-pub const C07_RULE: &str = "positions including checkmated, stalemated, single-legal-move and in-check ones (cage / pin-check themes, placements, endgames, reachable walks), half-move clock 0..150 and 0..3 prior registrations of the position (so draw-by-history states with legal moves are included), depth 0..5 (3 only for <= 8 men, 4 for <= 4 men, 5 for <= 3 men; 6..14 on forced lines where every node has one legal move), rayon pools of 1/2/3/4/16/64 threads, through alpha_beta_search with a new or a used generator (optionally followed by a second search with the same context on the same position or on the same placement with the other side to move) and through Game::select_alpha_beta_best_move: depth 0 -> Err(DepthTooLow) (a terminal position at depth 0 may report either declared error); no legal move and depth >= 1 -> Err(NoAvailableMoves); otherwise Ok(move) whose (kind, from, to, promotion, captured) is in the reference legal set; full observable snapshot identical before and after; no panic. Deep blocked: kings and blocked pawn pairs (only kings can move) searched at growing depths from 8..11 on (steps of 1..3, new context each) for as long as the last search visited fewer than 60 000 nodes, at most 22. Heavy context: one SearchContext serves depth-4 searches of tiny endgames until several hundred thousand nodes have passed through its cache. Non-trivial = terminal, single legal move, in check, depth 0, clock >= 100 or repetition count 3 with legal moves, or pool size != 1; distinct = hash of the case.";
+pub const C07_RULE: &str = "positions including checkmated, stalemated, single-legal-move and in-check ones (cage / pin-check themes, placements, endgames, reachable walks), half-move clock 0..150 and 0..3 prior registrations of the position (so draw-by-history states with legal moves are included), depth 0..5 (3 only for <= 8 men, 4 for <= 4 men, 5 for <= 3 men; 6..14 on forced lines where every node has one legal move), rayon pools of 1/2/3/4/16/64 threads, through alpha_beta_search with a new or a used generator (optionally followed by a second search with the same context on the same position or on the same placement with the other side to move) and through Game::select_alpha_beta_best_move: depth 0 -> Err(DepthTooLow) (a terminal position at depth 0 may report either declared error); no legal move and depth >= 1 -> Err(NoAvailableMoves); otherwise Ok(move) whose (kind, from, to, promotion, captured) is in the reference legal set; full observable snapshot identical before and after; no panic. Deep mate searches: depth 5..6 on positions of at most four men with a mate close by (mate in one at the root in some of them), board snapshot - turn included - identical afterwards. Deep blocked: kings and blocked pawn pairs (only kings can move) searched at growing depths from 8..11 on (steps of 1..3, new context each) for as long as the last search visited fewer than 60 000 nodes, at most 22. Heavy context: one SearchContext serves depth-4 searches of tiny endgames until several hundred thousand nodes have passed through its cache. Non-trivial = terminal, single legal move, in check, depth 0, clock >= 100 or repetition count 3 with legal moves, or pool size != 1; distinct = hash of the case.";
 
 #[derive(Clone, Debug, Serialize, Deserialize)]
 pub struct SearchCase {
@@ -505,6 +505,87 @@ impl Prop for DeepBlocked {
     }
 }
 
+/// Searches of depth 5..6 (deeper than any default) on tiny positions in which a mate is close
+/// (mate in one or two, or being mated): the caller's board - turn included - must come back
+/// exactly as it was, and the move must be legal.
+pub struct DeepMateSearches {
+    pub name: &'static str,
+}
+
+impl Prop for DeepMateSearches {
+    type Case = DeepCase;
+    fn name(&self) -> &'static str {
+        self.name
+    }
+    fn max_shrink_iters(&self) -> u32 {
+        60
+    }
+    fn strategy(&self, _tier: Tier) -> BoxedStrategy<DeepCase> {
+        (
+            prop_oneof![
+                4 => gen::mating_material(),
+                2 => gen::pre_terminal(),
+                1 => gen::endgame(2).prop_map(|r| gen::build(&r).fen()),
+            ],
+            5u8..=6,
+            0u8..6,
+            any::<bool>(),
+        )
+            .prop_map(|(fen, depth, pool, via_game)| DeepCase { fen, depth, pool, via_game })
+            .boxed()
+    }
+    fn cases(&self, tier: Tier) -> u32 {
+        tier.pick(320, 8_000)
+    }
+    fn test(&self, c: &DeepCase, st: &mut Stats) -> TestResult {
+        let mut pos = Pos::from_fen(&c.fen).map_err(Failure::new)?;
+        pos.half = 0;
+        let legal = pos.legal_moves();
+        if legal.is_empty() || pos.men() > 4 {
+            return Ok(());
+        }
+        let depth = if pos.men() == 4 { 5 } else { c.depth };
+        let threads = POOL_SIZES[c.pool as usize % POOL_SIZES.len()];
+        let p = pool(threads);
+        let mate_in_one = legal.iter().any(|m| {
+            let n = pos.make(m);
+            n.legal_moves().is_empty() && n.in_check(n.side)
+        });
+        let (r, before, after) = if c.via_game {
+            let mut game = Game::from_board(to_board(&pos), depth);
+            let before = snapshot(game.board());
+            let r = no_panic(|| p.install(|| game.select_alpha_beta_best_move().map_err(|e| format!("{:?}", e))));
+            (r, before, snapshot(game.board()))
+        } else {
+            let mut board = to_board(&pos);
+            let mut g = MoveGenerator::new();
+            let mut ctx = SearchContext::new(depth);
+            let before = snapshot(&board);
+            let r = no_panic(|| p.install(|| alpha_beta_search(&mut ctx, &mut board, &mut g).map_err(|e| format!("{:?}", e))));
+            (r, before, snapshot(&board))
+        };
+        if mate_in_one {
+            st.label("mate-in-one-at-the-root");
+        }
+        st.label(&format!("depth-{}", depth));
+        st.nontrivial(fp_of(c), || json!({"fen": pos.fen(), "depth": depth, "threads": threads, "via_game": c.via_game, "mate_in_one": mate_in_one}));
+        match r {
+            Ok(Ok(m)) => {
+                let mv = mv_of(&m);
+                if !legal.contains(&mv) {
+                    return Err(fail_pos(format!("depth-{} search returned {}, which is not legal", depth, mv_text(&mv)), &pos));
+                }
+            }
+            Ok(Err(e)) => return Err(fail_pos(format!("depth-{} search answered {} although {} legal moves exist", depth, e, legal.len()), &pos)),
+            Err(m) => return Err(fail_pos(format!("depth-{} search ({} threads) panicked: {}", depth, threads, m), &pos)),
+        }
+        if let Some(d) = snapshot_diff(&before, &after) {
+            return Err(fail_pos(format!("a depth-{} search ({} threads) left the caller's board changed: {}", depth, threads, d), &pos));
+        }
+        Ok(())
+    }
+}
+
 pub fn c07_checks() -> Vec<Box<dyn DynCheck>> {
     vec![
         Box::new(C07Searches),
@@ -514,6 +595,7 @@ pub fn c07_checks() -> Vec<Box<dyn DynCheck>> {
             replay: |_| Err("re-run the check".into()),
         }),
         Box::new(DeepBlocked { name: "C07/deep-blocked" }),
+        Box::new(DeepMateSearches { name: "C07/deep-mate-searches" }),
     ]
 }
 
@@ -775,7 +857,8 @@ impl Prop for C08DeepEndgames {
                 3 => gen::endgame(3).prop_map(move |r| zero(gen::build(&r))),
                 2 => gen::pawn_race().prop_map(move |r| zero(gen::build(&r))),
             ],
-            prop_oneof![1 => Just(4u8), 4 => Just(5u8)],
+            // depth 7 (three men only): the same node comes back with four plies left
+            prop_oneof![4 => Just(4u8), 16 => Just(5u8), 1 => Just(7u8)],
             0u8..6,
         )
             .boxed()
@@ -790,14 +873,15 @@ impl Prop for C08DeepEndgames {
             return Ok(());
         }
         let depth = match pos.men() {
-            0..=4 => c.1,
+            0..=3 => c.1,
+            4 => c.1.min(5),
             5 => c.1.min(4),
             _ => 3,
         };
         let mut nodes = 0u64;
         let want = pruned_reference(&pos, depth, i32::MIN, i32::MAX, &mut nodes);
         st.count("pruned_reference_nodes", nodes);
-        if pos.fingerprint() % 16 == 0 && pos.men() <= 3 {
+        if pos.fingerprint() % 16 == 0 && pos.men() <= 3 && depth <= 5 {
             let mut info = MinimaxInfo {
                 terminal_inside: false,
                 nodes: 0,
